@@ -47,9 +47,11 @@ func (f *fakeLog) GetRange() (uint64, uint64) {
 	defer f.mu.Unlock()
 	return f.marker + 1, uint64(len(f.entries))
 }
-func (f *fakeLog) NodeState() (raftpb.State, raftpb.Membership) { return raftpb.State{}, raftpb.Membership{} }
-func (f *fakeLog) Term(uint64) (uint64, error)                    { return 1, nil }
-func (f *fakeLog) Snapshot() raftpb.Snapshot                      { return raftpb.Snapshot{} }
+func (f *fakeLog) NodeState() (raftpb.State, raftpb.Membership) {
+	return raftpb.State{}, raftpb.Membership{}
+}
+func (f *fakeLog) Term(uint64) (uint64, error) { return 1, nil }
+func (f *fakeLog) Snapshot() raftpb.Snapshot   { return raftpb.Snapshot{} }
 func (f *fakeLog) Entries(low, high, maxSize uint64) ([]raftpb.Entry, error) {
 	f.mu.Lock()
 	defer f.mu.Unlock()
@@ -91,7 +93,7 @@ func (h fakeHost) idx() (interface{}, error) {
 	return &fsm.IndexResponse{Index: h.l.applied}, nil
 }
 func (h fakeHost) SyncRead(context.Context, uint64, interface{}) (interface{}, error) { return h.idx() }
-func (h fakeHost) StaleRead(uint64, interface{}) (interface{}, error)                  { return h.idx() }
+func (h fakeHost) StaleRead(uint64, interface{}) (interface{}, error)                 { return h.idx() }
 func (h fakeHost) SyncPropose(context.Context, *client.Session, []byte) (sm.Result, error) {
 	return sm.Result{}, errors.New("not supported")
 }
@@ -106,7 +108,7 @@ func (t fakeTables) GetTable(name string) (table.ActiveTable, error) {
 	}
 	return table.Table{Name: "tbl", ClusterID: 10001}.AsActive(t.h), nil
 }
-func (t fakeTables) Restore(string, io.Reader) error          { return nil }
+func (t fakeTables) Restore(string, io.Reader) error         { return nil }
 func (t fakeTables) CreateTable(string) (table.Table, error) { return table.Table{}, nil }
 func (t fakeTables) DeleteTable(string) error                { return nil }
 
